@@ -21,9 +21,13 @@ QmapOf(os) == [i \in Ids |-> IF \E k \in DOMAIN os : os[k].id = i
 ObsOf(st) == [qmap |-> QmapOf(st.orders), tickets |-> st.tickets]
 
 MaxFails == 20
+MaxPerMon == 6
 AddFails(s, fs) ==
-  LET new == {f \in fs : ~\E h \in s.fails : h.mon = f.mon /\ h.sc = f.sc /\ h.run = f.run} IN
-  IF Cardinality(s.fails) >= MaxFails THEN s ELSE [s EXCEPT !.fails = @ \cup new]
+  \* the first failure of each monitor per execution, at most MaxPerMon executions per monitor
+  \* (a cap over all monitors together would let a noisy monitor hide the others)
+  LET new == {f \in fs : /\ ~\E h \in s.fails : h.mon = f.mon /\ h.sc = f.sc /\ h.run = f.run
+                         /\ Cardinality({h \in s.fails : h.mon = f.mon}) < MaxPerMon} IN
+  [s EXCEPT !.fails = @ \cup new]
 Fail(mon, line) == [mon |-> mon, line |-> line, sc |-> ex.sc, run |-> ex.run]
 
 Init ==
